@@ -1,6 +1,7 @@
 package sessrep
 
 import (
+	"bytes"
 	"encoding/base64"
 	"errors"
 	"fmt"
@@ -355,6 +356,17 @@ func Concretize(e *Edge, n int) Concrete {
 		k.Handshake = len(e.Lbl.Replies) > 0 && e.Lbl.Replies[0].Code == 220
 	default:
 		panic("unknown abstract command " + c.C)
+	}
+	// command verbs and keywords are case-insensitive (RFC 5321 section 2.4):
+	// the spelling rotates with the step number
+	if len(k.Phases) > 0 {
+		switch c.C {
+		case "HELO", "EHLO", "LHLO", "MAIL", "RCPT", "DATA", "BDAT", "RSET", "NOOP", "VRFY", "HELP", "QUIT", "STARTTLS", "AUTH",
+			"DATACUT", "BDATCUT", "DATASTALL", "BDATSTALL":
+			if c.A != "badsize" && c.A != "badpath" {
+				k.Phases[0] = recaseCommand(k.Phases[0], n%3)
+			}
+		}
 	}
 	if e.Dst.Closed && !e.Src.Closed && !k.EOF && !k.ThenEOF && k.StallThen == nil && len(k.Phases) > 0 {
 		// pipeline the suffix behind the closing command, in the same segment
@@ -1058,3 +1070,61 @@ func TourFiltered(g *Graph, run *evid.Run, rng *rand.Rand, maxEdges int, want fu
 }
 
 var _ = time.Now
+
+// recaseCommand changes the letter case of the verb and of the keywords of the
+// command line that starts phase (style 0: as written, 1: lower case, 2:
+// alternating); addresses, host names, sizes and base64 are left alone.
+func recaseCommand(phase []byte, style int) []byte {
+	if style == 0 {
+		return phase
+	}
+	eol := bytes.Index(phase, []byte("\r\n"))
+	if eol < 0 {
+		return phase
+	}
+	conv := func(w string) string {
+		if style == 1 {
+			return strings.ToLower(w)
+		}
+		b := []byte(strings.ToLower(w))
+		for i := 0; i < len(b); i += 2 {
+			if b[i] >= 'a' && b[i] <= 'z' {
+				b[i] -= 32
+			}
+		}
+		return string(b)
+	}
+	lineS := string(phase[:eol])
+	words := strings.Split(lineS, " ")
+	verb := strings.ToUpper(words[0])
+	words[0] = conv(words[0])
+	inPath := false
+	for i := 1; i < len(words); i++ {
+		w := words[i]
+		switch {
+		case verb == "AUTH" && i == 1:
+			words[i] = conv(w) // mechanism name
+		case verb == "BDAT" && strings.EqualFold(w, "LAST"):
+			words[i] = conv(w)
+		case (verb == "MAIL" || verb == "RCPT") && !inPath:
+			if j := strings.IndexByte(w, '<'); j >= 0 {
+				words[i] = conv(w[:j]) + w[j:] // FROM: / TO:
+				if !strings.Contains(w, ">") {
+					inPath = true
+				}
+			} else if j := strings.IndexByte(w, '='); j > 0 && i > 1 {
+				words[i] = conv(w[:j]) + w[j:] // parameter keyword
+			} else if i > 1 && !strings.ContainsAny(w, "<>@") {
+				words[i] = conv(w) // valueless parameter
+			} else if i == 1 {
+				words[i] = conv(w)
+			}
+		case inPath:
+			if strings.Contains(w, ">") {
+				inPath = false
+			}
+		}
+	}
+	out := append([]byte(strings.Join(words, " ")), phase[eol:]...)
+	return out
+}
